@@ -713,7 +713,7 @@ class TPAnalysis:
                 dl = [e for e in E if e.kind == 'delete' and isinstance(e.val, Sym) and e.val.name.startswith('m_queue.')]
                 if not rm and not dl: continue
                 # clear() reached through this member is judged as clear() itself
-                via_clear = 'clear' in self.fn and any(e.kind == 'call' and e.name == self.fn['clear'].name for e in E)
+                via_clear = 'clear' in self.fn and any(e.kind in ('call', 'enter') and strip_targs(e.name or '') == strip_targs(self.fn['clear'].name) for e in E)
                 if via_clear: continue
                 inst = f'{nm}(): a queued task it destroys leaves the queue, a task it takes out of the queue is destroyed'
                 if dl and not rm: k = (False, inst, dl[0].site, f'{nm}() destroys a queued task and leaves its pointer in m_queue: a worker takes the pointer, runs the destroyed object and deletes it a second time')
@@ -726,6 +726,20 @@ class TPAnalysis:
                 else: k = (True, inst, rm[0].site, '')
                 if k in seen: continue
                 seen.add(k); self.add('TP.4', *k)
+            # ... and the same pairing for the workers: a Thread object that is deleted leaves m_pool on the same path
+            seen_p = set()
+            for P, E in res:
+                if P.end not in ('exit', 'return'): continue
+                pdl = [e for e in E if e.kind == 'delete' and isinstance(e.val, Sym) and e.val.name.startswith('m_pool.')]
+                prm = [e for e in E if e.kind == 'call' and e.obj == 'm_pool' and e.name.split('::')[-1] in ('erase', 'pop_front', 'pop_back', 'clear', 'remove', 'remove_if', 'erase_after', 'swap', 'operator=')]
+                if not pdl: continue
+                via_stop = any(e.kind in ('call', 'enter') and strip_targs(e.name or '') in {strip_targs(self.fn[k_].name) for k_ in ('stop', 'update') if k_ in self.fn} for e in E)
+                if via_stop: continue
+                inst = f'{nm}(): a worker it destroys leaves m_pool'
+                kk = (bool(prm), inst, pdl[0].site, '' if prm else f'{nm}() deletes a worker thread and returns with its pointer still in m_pool (the path leaves before m_pool is emptied): the next stop() / update() / start() '
+                      'calls join() / isRunning() on the freed object and deletes it again')
+                if kk in seen_p: continue
+                seen_p.add(kk); self.add('TP.6c', *kk)
 
     def _pool_loop_conds(self, f):
         out = set()
